@@ -26,7 +26,11 @@ def strategy(tier):
     general = graph.graph_case(max_tasks=8 if tier == "quick" else 12, outcomes="some", max_bad=4,
                             p_seed_den=5, tape_max=50, tape_hi=31, flags=("again", "stop_early"),
                             jobs=(None, 1, 2, 2, 3, 3, 4, 5))
-    return st.one_of(general, general, graph.layered_case(flags=("stop_early",), p_fail_den=3))
+    # experiment-heavy graphs in which every second experiment is cached: chains of pruned tasks with shortcut edges
+    cached = graph.graph_case(max_tasks=8 if tier == "quick" else 12, outcomes="some", max_bad=3, kind_weights=(2, 6, 1, 0),
+                              p_seed_den=2, tape_max=50, tape_hi=31, densities=("dense", "sparse"), flags=("stop_early",),
+                              jobs=(None, 2, 3, 3, 4))
+    return st.one_of(general, general, cached, graph.layered_case(flags=("stop_early",), p_fail_den=3))
 
 
 def examples(tier):
